@@ -13,7 +13,15 @@ import (
 	_ "github.com/blevesearch/bleve/v2/index/upsidedown/store/metrics"
 	"github.com/blevesearch/bleve/v2/index/upsidedown/store/moss"
 	"github.com/blevesearch/bleve/v2/mapping"
+	gometrics "github.com/blevesearch/go-metrics"
 )
+
+func init() {
+	// go-metrics starts one process-wide ticker goroutine on the first NewMeter. It must be started outside any
+	// synctest bubble: a goroutine inside a bubble that waits on that (non-bubble) ticker is never durably
+	// blocked, and the simulation would hang.
+	gometrics.NewMeter().Stop()
+}
 
 // IndexCfg is the knob configuration of one index instance (part of the replay file).
 type IndexCfg struct {
@@ -69,7 +77,10 @@ func GenIndexCfg(r interface{ Intn(int) int }) IndexCfg {
 		c.TierGrowth = []float64{0, 2, 10}[r.Intn(3)]
 	}
 	c.KeepSnapshots = []int{0, 1, 2, 3, 4}[r.Intn(5)]
-	c.TFRCache1 = []int{0, 0, 1, 2, 9}[r.Intn(5)]
+	// fieldTFRCacheThreshold stays at its default (0 = recycling off): the recycling of term field readers is
+	// disabled upstream because it returns wrong results (MB-64604); only the C02 scenario turns it on, rarely,
+	// and keys what it then sees as a known finding
+	r.Intn(5)
 	return c
 }
 
